@@ -417,7 +417,7 @@ def parse_terminator(line):
 # function bodies
 
 class Function:
-    __slots__ = ('name', 'header', 'params', 'ret_ty', 'locals', 'blocks', 'nargs', 'debug', 'text', 'extra_caps')
+    __slots__ = ('name', 'header', 'params', 'ret_ty', 'locals', 'blocks', 'nargs', 'debug', 'debug_all', 'text', 'extra_caps')
 
     def __repr__(self):
         return '<fn %s>' % self.name
@@ -474,6 +474,7 @@ def parse_function(text):
     f.locals[0] = f.ret_ty
     f.blocks = {}
     f.debug = {}
+    f.debug_all = []      # every (name, place) in declaration order: names can be shadowed in inner scopes
     cur = None
     stmts = None
     for ln in lines[1:]:
@@ -487,6 +488,7 @@ def parse_function(text):
         m = re.match(r'debug (\S+) => (.*);$', s)
         if m and cur is None:
             f.debug[m.group(1)] = m.group(2)
+            f.debug_all.append((m.group(1), m.group(2)))
             continue
         m = re.match(r'bb(\d+)( \(cleanup\))?: \{$', s)
         if m:
